@@ -270,6 +270,9 @@ def e2e_stage(res, tier, seed, custom=False):
             tree.append(["pl_" + rule[:3], {"k": "plural", "rule": rule, "forms": {f: [{"s": "text", "v": f}] for f in gen.FORMS}}])
     proj = {"cfg": {"default": locs[0], "locales": list(locs), "namespaces": None, "inherits": {}, "locales_dir": None},
             "data": {(None, l): tree for l in locs}}
+    if len(locs) >= 2:
+        # the last locale translates none of the formatted keys: it renders the default locale's text, formatted for itself
+        proj["data"][(None, locs[-1])] = [[k, ({"k": "null"} if k[0] == "f" and k[1:].isdigit() else n)] for k, n in tree]
     c = e2e.ProbeCrate("c18_custom" if custom else "c18_0", proj,
                        features=["cookie", "interpolate_display", "plurals", "format_datetime", "format_nums", "format_list", "format_currency", "ssr"] if custom else None)
     c.extra_items = EXPECT_RS
